@@ -3,7 +3,7 @@
 use crate::verif::models::ledger::{EvState, Ledger};
 use crate::verif::nodes::outstation::{type_slot, Cb, CtrlAnswers};
 use crate::verif::props::gen_out::*;
-use crate::verif::refcodec::app::{self as refapp, ALL_TYPES};
+use crate::verif::refcodec::app::{self as refapp, ReqHeader, ALL_TYPES};
 use crate::verif::rng::{mix, Rng};
 use crate::verif::runner::{erase, Codec, Outcome, Property, Scenario, Tier, Violation};
 use crate::verif::sout::{self, ConfSel, Op, Oracle, SoutCase, Step, TimeBase, Who, World, TL};
@@ -149,6 +149,20 @@ impl Scenario for EventScenario {
         let len = rng.urange(5, 40);
         let mut script = gen_event_script(rng, &cfg, len);
         crate::verif::props::gen_out::sprinkle_splits(rng, &mut script);
+        // "keeps being offered in later polls": most histories close with a poll for everything (unsolicited reporting switched
+        // off first, so that the poll is answered from idle), which holds every event still owed
+        if rng.chance(2, 3) {
+            script.push(Op::Confirm {
+                uns: true,
+                seq: ConfSel::Expected,
+                from: Who::Master,
+            });
+            script.push(simple_request(
+                refapp::FUNC_DISABLE_UNSOL,
+                vec![ReqHeader::all(60, 2), ReqHeader::all(60, 3), ReqHeader::all(60, 4)],
+            ));
+            script.push(read_op(vec![ReqHeader::all(60, 2), ReqHeader::all(60, 3), ReqHeader::all(60, 4)]));
+        }
         SoutCase {
             cfg,
             ctrl: CtrlAnswers::AllSuccess,
@@ -203,6 +217,7 @@ pub struct LedgerOracle {
     unconfirmed_event_response: bool,
     /// (the step being judged, before it was cut into parts, contains a release)
     whole_step_has_end_confirm: bool,
+    script_len: usize,
     nontrivial: bool,
     fp: u64,
     counters: BTreeMap<String, u64>,
@@ -220,6 +235,7 @@ impl LedgerOracle {
             last_unsol_bytes: None,
             unconfirmed_event_response: false,
             whole_step_has_end_confirm: false,
+            script_len: case.script.len(),
             nontrivial: false,
             fp: 0,
             counters: BTreeMap::new(),
@@ -626,11 +642,20 @@ impl LedgerOracle {
                             && s.dest == _world.cfg.outstation_addr
                     })
                     .unwrap_or(false);
+                if is_read_from_master && step.op_index + 1 == self.script_len {
+                    self.bump("probe.closing_poll_sent");
+                    if step.received.is_empty() {
+                        self.bump("probe.closing_poll_got_nothing");
+                    }
+                }
                 for rx in &step.received {
                     let frag = match &rx.frag {
                         Some(f) => f,
                         None => continue, // C12 judges undecodable fragments
                     };
+                    if is_read_from_master && step.op_index + 1 == self.script_len && frag.func == refapp::FUNC_RESPONSE {
+                        self.bump(if frag.ctrl.fir && frag.ctrl.fin { "probe.closing_poll_answered_in_one_fragment" } else { "probe.closing_poll_answered_in_several_fragments" });
+                    }
                     if frag.func != refapp::FUNC_RESPONSE
                         && frag.func != refapp::FUNC_UNSOL_RESPONSE
                     {
@@ -910,6 +935,10 @@ impl LedgerOracle {
                                     taken.extend(cands);
                                 }
                                 if modelled {
+                                    self.bump("probe.complete_event_read_judged");
+                                    if matches!(step.op, Op::Request { .. }) && step.op_index + 1 == self.script_len {
+                                        self.bump("probe.closing_poll_judged");
+                                    }
                                     let missing: Vec<u64> = taken
                                         .iter()
                                         .copied()
